@@ -331,12 +331,12 @@ def r2(ctx: Ctx, rep: Report):
     mr = inv.methods.get("_map_response")
     if mr is None:
         raise AnalysisError("Inverter._map_response not found")
-    ok, why = _isolating_loop(prog, mr, "read", ("ValueError",))
+    ok, why = _isolating_loop(prog, mr, "read", ("ValueError",), res)
     rep.check(ok, "C11.R2", "map_response", mr.loc(), "_map_response isolates each sensor (try/except ValueError -> None inside the loop)",
               bad="Inverter._map_response: %s" % why)
     et = prog.cls("ET")
     rs = et.methods.get("read_settings_data")
-    ok, why = _isolating_loop(prog, rs, "read_setting", ("ValueError", "RequestFailedException"))
+    ok, why = _isolating_loop(prog, rs, "read_setting", ("ValueError", "RequestFailedException"), res)
     rep.check(ok, "C11.R2", "et-read-settings-data", rs.loc() if rs else et.module.relpath, "ET.read_settings_data isolates each setting",
               bad="ET.read_settings_data: %s" % why)
     # who-may-call: sensor.read(...) only inside _map_response; every bulk decode goes through it
@@ -359,7 +359,7 @@ def r2(ctx: Ctx, rep: Report):
                       bad="%s.%s no longer decodes through _map_response" % (famname, mname))
 
 
-def _isolating_loop(prog, fn, call_name: str, must_catch) -> Tuple[bool, str]:
+def _isolating_loop(prog, fn, call_name: str, must_catch, res=None) -> Tuple[bool, str]:
     """Path rule over the loop around <item>.<call_name>(...): in every iteration in which the call raises one of the
     *must_catch* classes the exception is caught, None is stored for the item and the loop goes on; in every other
     iteration the value is stored.  (Where the store sits relative to the try block does not matter.)"""
@@ -381,6 +381,28 @@ def _isolating_loop(prog, fn, call_name: str, must_catch) -> Tuple[bool, str]:
 
     def oracle(node, f):
         return classes if is_call(node) else []
+    # the handler that isolates one item must not run conversions written in the package (an eager f-string / str() of a
+    # setting object calls its __str__, which may raise on a half-decoded object) - lazy logger arguments are fine
+    if res is not None:
+        for t in [x for x in ast.walk(lp) if isinstance(x, ast.Try)]:
+            for h in t.handlers:
+                for n in [x for b in h.body for x in ast.walk(b)]:
+                    exprs = []
+                    if isinstance(n, ast.FormattedValue):
+                        exprs = [n.value]
+                    elif isinstance(n, ast.Call) and isinstance(n.func, ast.Name) and n.func.id in ("str", "repr", "format") and n.args:
+                        exprs = [n.args[0]]
+                    elif isinstance(n, ast.BinOp) and isinstance(n.op, ast.Mod) and isinstance(n.left, ast.Constant) and isinstance(n.left.value, str):
+                        exprs = list(n.right.elts) if isinstance(n.right, ast.Tuple) else [n.right]
+                    for x in exprs:
+                        for ty in res.expr_types(x, fn):
+                            if ty[0] != "inst":
+                                continue
+                            owners = [c.name for c in prog.all_subclasses(ty[1]) for mname in ("__str__", "__repr__", "__format__")
+                                      if mname in c.methods]
+                            if owners:
+                                return False, "the handler converts %s to text eagerly (%s): this runs %s.__str__ of the item that just failed to decode, and an exception raised there leaves the loop" % (
+                                    norm(x), norm(n)[:40], sorted(set(owners))[0])
     seen_fail = seen_ok = 0
     for p in enumerate_paths(prog, fn, oracle, unroll=1):
         rp = None
